@@ -254,6 +254,30 @@ func init() {
 			return nil
 		},
 		"Stop": func(fr *frame, args []value) value { panic(pathEnd{"stop"}) },
+		"Cover": func(fr *frame, args []value) value {
+			// reachability witness: the run must contain at least one feasible path on which cond holds
+			px := fr.i.px
+			id := str(args[1])
+			if px.inPrefix() {
+				return nil
+			}
+			if _, ok := px.covers[id]; !ok {
+				px.covers[id] = 0
+			}
+			switch c := args[0].(type) {
+			case bool:
+				if c {
+					px.covers[id]++
+				}
+			case SymBool:
+				saved := px.model
+				if px.check(c.T, false) == smt.Sat {
+					px.covers[id]++
+				}
+				px.model = saved
+			}
+			return nil
+		},
 		"Bound": func(fr *frame, args []value) value {
 			px := fr.i.px
 			un := px.uniqueName("bound:" + str(args[0]))
